@@ -67,6 +67,21 @@ def plain(rng):
             if (Q[:k] != 0).any() or (Q[k + 1:] != 7).any():
                 return dict(reproduced=True, call='py_simulate_model(np.arange(0, 2, 0.1), rule Q = 7 scheduled at the grid time %r, %r)' % (float(T[k]), mode),
                             what='rows before / after the scheduled time', observed=Q.tolist(), expected='0 before row %d, 7 after it' % k)
+    # rules given to the CONSTRUCTOR as a mixed list of (type, attributes, frequency) and (type, attributes): a rule without a frequency is a
+    # repeated rule and holds on every row, whatever the frequency of the rule listed before it
+    for it in range(6):
+        first = rng.choice([('assignment', {'equation': 'Q = 2*A'}, 'dt'), ('assignment', {'equation': 'Q = 5'}, '0.5'), ('assignment', {'equation': 'Q = 1'}, 'start')])
+        M = Model(species=['A', 'B', 'S', 'Q'], reactions=[([], ['A'], 'massaction', {'k': rng.uniform(4, 9)}), (['A'], ['B'], 'massaction', {'k': rng.uniform(0.5, 2)})],
+                  rules=[first, ('assignment', {'equation': 'S = A + 2*B'})], initial_condition_dict={'A': 3, 'B': 0, 'S': 0, 'Q': 0})
+        idx = M.get_species2index()
+        T = np.arange(0, 3, 0.25)
+        for mode in (dict(stochastic=True), dict(stochastic=True, safe=True), dict(stochastic=True, delay=True), dict(stochastic=True, volume=1.0), dict(stochastic=False)):
+            py_seed_random(rng.randint(1, 10 ** 6))
+            data = np.array(py_simulate_model(T, Model=M, return_dataframe=False, **mode).py_get_result())
+            bad = [m for m in range(len(T)) if abs(data[m][idx['S']] - (data[m][idx['A']] + 2 * data[m][idx['B']])) > 1e-7]
+            if bad:
+                return dict(reproduced=True, call='Model(rules=[%r, (assignment, S = A + 2*B)]) simulated with %r' % (first, mode), what='rows on which the rule without a frequency does not hold',
+                            observed=bad, expected='none (a rule without a frequency is a repeated rule)')
     # deterministic mode: the repeated assignment rule holds on every reported row
     for it in range(4):
         M, rate = build(Model, rng, True)
